@@ -164,7 +164,7 @@ func checkKernel(w *load.World, c *core.Collector, f *asmFunc, props []string) {
 			}
 		}
 	}
-	if len(loops) != 2 {
+	if len(loops) < 2 {
 		c.Add("ASM", f.name+":loops", core.Undecided, rel, fmt.Sprintf("expected a block loop and a tail loop, found %d loops", len(loops)), props...)
 		return
 	}
